@@ -420,6 +420,56 @@ fn emit_rows(rows: &[Row]) -> String {
     emit::list(&rows.iter().map(|(c, t, d, b)| format!("({}, {}, {}, {})", c, emit::blob(t.as_bytes()), emit::blob(d.as_bytes()), emit::boolean(*b))).collect::<Vec<_>>())
 }
 
+const BOUNDARY_NAMES: &[(&str, u32)] = &[
+    ("Err90396A79", 1),
+    ("ErrACD21B17", 1),
+    ("Err12B9987C5", 255),
+    ("Err119E021B", 256),
+    ("Err14B473140", 256),
+    ("Err1246D227E", 6992),
+    ("Err128A4C2FF", 6992),
+    ("Err11B31E415", 6993),
+    ("Err1C21AF22", 6993),
+    ("Err1AEF74821", 6994),
+    ("Err122B1EB74", 6995),
+    ("Err17FBE8E9E", 6995),
+    ("Err13C169035", 6998),
+    ("Err157814846", 6999),
+    ("Err1A6D8CF9B", 6999),
+    ("Err5B13B05", 7000),
+    ("Err17E3F6B59", 7001),
+    ("ErrF2E13A85", 7001),
+    ("Err131C2349", 7002),
+    ("Err18FC0DB9C", 7002),
+    ("Err11C5844B6", 65535),
+    ("Err1C04F348B", 65535),
+    ("Err163F49CBC", 65536),
+    ("Err19CC78CF6", 2147483647),
+    ("Err8A97BEC4", 2147483648),
+    ("Err12349DE90", 2147483649),
+    ("Err555C9DC1", 2147483649),
+    ("Err15363BC8C", 4294966266),
+    ("Err1A57E9D18", 4294966266),
+    ("Err4B2790EB", 4294966267),
+    ("Err1492549A9", 4294966268),
+    ("Err15FB80096", 4294966268),
+    ("Err363930BB", 4294966269),
+    ("Err1BEA4E54F", 4294966270),
+    ("Err220687A1", 4294966270),
+    ("Err11816F685", 4294966271),
+    ("Err317F3489", 4294966271),
+    ("Err1C223C7E9", 4294966272),
+    ("Err8FF0004B", 4294966272),
+    ("Err18351E9A", 4294966273),
+    ("ErrA0356540", 4294966273),
+    ("ErrDDFF0D1B", 4294966275),
+    ("Err1A2B68B2E", 4294967292),
+    ("Err1E368BE9E", 4294967292),
+    ("Err152BDF8CD", 4294967293),
+    ("Err1D04A6C43", 4294967293),
+    ("Err11A954919", 4294967295),
+    ("Err1296F2A95", 4294967295),
+];
 fn independent_start(name: &str) -> (u32, u32) {
     let mut nonce: u32 = 0;
     loop {
@@ -544,8 +594,24 @@ pub fn run_c19(ctx: &Ctx) -> Report {
     }
 
     // ---- (a) the real token generators at run time
-    // a name whose hash needs a non-zero nonce (probability 1.6e-6 per name)
+    // names whose nonce-0 value sits on a boundary (found once by a 2^33-name search, tools/hunt):
+    // exactly 7000 and its neighbours, 6990..6999 (nonce must advance), 1, 255/256, 65535/65536,
+    // 2^31 and neighbours, u32::MAX-1029..u32::MAX-1020, the top four values.  The value recorded
+    // here is re-derived with sha2 on every run before it is used.
     let mut special: Vec<String> = Vec::new();
+    for (name, v0) in BOUNDARY_NAMES {
+        let mut h = Sha256::new();
+        h.update(b"spl_program_error:");
+        h.update(name.as_bytes());
+        h.update(0u32.to_le_bytes());
+        let dg = h.finalize();
+        if u32::from_le_bytes([dg[13], dg[14], dg[15], dg[16]]) != *v0 {
+            rep.violate("boundary-corpus", "harness corpus entry does not hash to its recorded value", serde_json::json!({"name": name}).to_string());
+        }
+        rep.count(&format!("gen:boundary-start:{}", if *v0 < 7000 { "below-7000" } else if *v0 == 7000 { "exactly-7000" } else if *v0 > u32::MAX - 2000 { "near-u32-max" } else { "other" }));
+        special.push(name.to_string());
+    }
+    // a name whose hash needs a non-zero nonce (probability 1.6e-6 per name)
     let scan_limit = ctx.scale(3_000_000, 12_000_000);
     for k in 0..scan_limit {
         let name = format!("E{}", k);
@@ -577,8 +643,11 @@ pub fn run_c19(ctx: &Ctx) -> Report {
             }
             s
         };
-        let nvar = rng.range(1, 12) as usize;
+        let mut nvar = rng.range(1, 12) as usize;
         let hashed = k < special.len() || rng.chance(1, 2);
+        if hashed && independent_start(&name).0 > u32::MAX - 16 {
+            nvar = 1; // later codes would not fit a u32: outside the property
+        }
         let mut decl: Vec<(String, Option<u64>, Option<String>)> = Vec::new();
         let mut src = String::new();
         src.push_str(&format!("pub enum {} {{\n", name));
